@@ -16,7 +16,7 @@
    One action = one critical section of Conn.mux (Write/Writev/Sendfile, flush, ResetPollerEvent, addConn's
    registration, close), one kernel step (epoll_wait returning the fd's event, the peer reading), or - for a
    dialer - the lock-free steps of readWriteLoop around the dial callback.
-   The code is modelled as it is in /repo now (D3, D19, D25, D27, D28, D31, D32 repaired).
+   The code is modelled as it is in /repo now (D3, D19, D25, D27, D28, D31, D32, D38 repaired).
    Who may act when: the application first sees a dialed connection in its dial callback (DialAsync returns no Conn),
    so Write/Sendfile are not enabled while dial = true; ResetPollerEvent is called for a delivered event only (by the
    poller's handler after the event's OUT bit has been handled, by the asynchronous read task, or by a custom OnRead
@@ -115,7 +115,10 @@ Definition rearm (s : st) : st :=
   | S o =>
     let s1 := set_owed s o in
     match md with
-    | ETOS => if closed s1 then s1 else if reg s1 then kctl s1 (0 <? q s1) else s1
+    | ETOS => if closed s1 then s1 else
+              (* the flag follows what is registered (D38) *)
+              let s2 := set_wadded s1 (0 <? q s1) in
+              if reg s2 then kctl s2 (0 <? q s2) else s2
     | _ => s1
     end
   end.
